@@ -43,7 +43,9 @@ def run(ctx: Ctx):
     ctx.assumptions += ["csv module quoting round-trips any field when the file is opened with newline=''"]
     M = ctx.model
     # ---------------- writer
-    check_annotator_key(ctx, "R-C18-3")       # every reader inserts through add(): the annotator text of the file is the annotator of the unit
+    check_annotator_key(ctx, "R-C18-3")
+    from .c13 import add_guard_obligation
+    add_guard_obligation(ctx, "R-C18-3")      # a discarded row must leave no trace: add() refuses before it writes anything       # every reader inserts through add(): the annotator text of the file is the annotator of the unit
     w = ctx.fn("Continuum.to_csv", "R-C18-1")
     ws = w.self_name
     wcalls = [c for c in walk_no_nested(w.node) if isinstance(c, ast.Call) and norm(c.func) == "csv.writer"]
